@@ -16,6 +16,8 @@ def __getitem__(self, i):
     if isinstance(i, slice):
         return self.__class__(self.frames[i])
     elif isinstance(i, (list, np.ndarray, tuple)):
+        if isinstance(i, tuple):
+            i = list(i)          # a tuple of positions selects like a list of positions (numpy would read it as one N-d index)
         return self.__class__(np.array(self.frames)[i])
     else:
         return self.frames[i]
@@ -25,18 +27,22 @@ def __getitem__(self, i):
     CD + 'insert': ('def insert(self, i, v):\n    self._check(v)\n    self.frames.insert(i, v)\n', ('calls',)),
     OC + '__setitem__': ('''
 def __setitem__(self, i, v):
+    # list model: the frame ends up at position i (from the end when negative); the label is that position's
     self._check(v)
     if i < 0:
         i = len(self) + i
-    if "order_label" not in v.metadata:
-        v.add_metadata({"order_label": self.order[i]})
+    label = self.order[i]
     self.frames[i] = v
+    if "order_label" not in v.metadata:
+        v.add_metadata({"order_label": label})
 ''', ('substores', 'calls')),
     OC + 'insert': ('''
 def insert(self, i, v):
+    # list model: list.insert clamps the position into [0, len]; the label is the one at the position the frame lands on
     self._check(v)
     if i < 0:
-        i = len(self) + i
+        i = max(len(self) + i, 0)
+    i = min(i, len(self))
     if "order_label" not in v.metadata:
         v.add_metadata({"order_label": self.order[i]})
     self.frames.insert(i, v)
@@ -65,6 +71,21 @@ def _check(self, v):
 }
 FIRST_PROPS = ('fch1', 'ascending', 'fmin', 'fmax', 'fmid', 'df', 'dt', 'fchans')
 NO_INLINE = (CD + '_check', 'frame.Frame.add_metadata', CD + '__init__', CD + '__len__', CD + '__iter__', CD + '__getitem__')
+
+
+def list_insert_position(e, bound):
+    """list.insert(P, v) places v at clamp(P) = min(max(P + n if P < 0 else P, 0), n): positions are compared after
+    that clamping, so passing the raw or the already clamped position to the list is the same call"""
+    if e.data.get('name') == '.insert' and 'i' in bound and e.data.get('recv') is not None:
+        ra = e.data['recv'].single_atom()
+        if ra is not None and ra.kind == 'attr' and ra.args[1] == 'frames':
+            n = T.mk_call('len', [T.mk_attr(ra.args[0], 'frames')])
+            P = bound['i']
+            # len(self) of a cadence is len(self.frames)
+            P = T.subst(P, lambda a: n if (a.kind == 'call' and a.args[0] == 'len' and a.args[1] and a.args[1][0].key == ra.args[0].key) else None)
+            bound['i'] = T.mk_call('min', [T.mk_call('max', [T.mk_ite(T.mk_cmp('<', P, Term.num(0)), P + n, P), Term.num(0)]), n])
+            return bound
+    return None
 
 
 def guard_function(ctx, cls):
@@ -160,7 +181,19 @@ def run(ctx):
     for short, (ref, what) in REFS.items():
         ctx.clause = 'D2' if short.endswith('_check') else ('D4' if short.startswith(OC) else 'D3')
         fi = ctx.func(short)
-        agree_ref(ctx, fi, ref, fi.short.split('.', 1)[1], what=what, expand=False, max_depth=0, no_inline=NO_INLINE)
+        agree_ref(ctx, fi, ref, fi.short.split('.', 1)[1], what=what, expand=False, max_depth=0, no_inline=NO_INLINE,
+                  norm_call=list_insert_position)
+    # a frame is labelled only once it is in the cadence: in the ordered item assignment the label is attached after the
+    # store (which raises for a position that does not exist), so a rejected frame keeps no stray label
+    ctx.clause = 'D4'
+    si = ctx.func(OC + '__setitem__')
+    rs, Is = ctx.run(si, expand=False, max_depth=0, no_inline=NO_INLINE)
+    st_ev = [e for e in Is.events if e.kind == 'store' and e.data.get('target') == 'sub' and ast.unparse(e.data['base_node']) == 'self.frames']
+    lab_ev = [e for e in Is.events if e.kind == 'call' and e.data.get('name', '').endswith('add_metadata')]
+    ctx.ob('ORDER', 'ordered item assignment: the order label is attached only after the frame has been stored (a failing store '
+           'leaves no label behind)', si, bool(st_ev) and bool(lab_ev) and all(st_ev[0].seq < l.seq for l in lab_ev),
+           {'store': [e.text() for e in st_ev], 'labelling': [e.text() for e in lab_ev]},
+           node=(lab_ev[0].node if lab_ev else si.node), construct='add_metadata after self.frames[i] = v')
     # the guard's attribute list must at least contain the resolution, size and lower band edge
     ctx.clause = 'D2'
     r, I = ctx.run(guard, expand=False, max_depth=0)
